@@ -69,3 +69,116 @@ Proof.
   explode_bytes bs Hlen Hok. nth_lit. pose proof Hok as Hok'. bytes_inv Hok'.
   f_equal; bridge.
 Qed.
+
+(* ---------------- adaptation field ---------------- *)
+
+(* a.AdaptationExtensionField.f = v, as the generated code writes it *)
+Definition upd_aef (f : PacketAdaptationExtensionField -> PacketAdaptationExtensionField) (a : PacketAdaptationField) : PacketAdaptationField :=
+  set_PacketAdaptationField_AdaptationExtensionField (Some (f (odflt zero_PacketAdaptationExtensionField (PacketAdaptationField_AdaptationExtensionField a)))) a.
+
+Ltac paf_norm := cbn beta iota zeta delta [upd_aef fst snd
+  set_PacketAdaptationExtensionField_DTSNextAccessUnit set_PacketAdaptationExtensionField_HasLegalTimeWindow set_PacketAdaptationExtensionField_HasPiecewiseRate set_PacketAdaptationExtensionField_HasSeamlessSplice set_PacketAdaptationExtensionField_LegalTimeWindowIsValid set_PacketAdaptationExtensionField_LegalTimeWindowOffset set_PacketAdaptationExtensionField_Length set_PacketAdaptationExtensionField_PiecewiseRate set_PacketAdaptationExtensionField_SpliceType set_PacketAdaptationField_AdaptationExtensionField set_PacketAdaptationField_DiscontinuityIndicator set_PacketAdaptationField_ElementaryStreamPriorityIndicator set_PacketAdaptationField_HasAdaptationExtensionField set_PacketAdaptationField_HasOPCR set_PacketAdaptationField_HasPCR set_PacketAdaptationField_HasSplicingCountdown set_PacketAdaptationField_HasTransportPrivateData set_PacketAdaptationField_IsOneByteStuffing set_PacketAdaptationField_Length set_PacketAdaptationField_OPCR set_PacketAdaptationField_PCR set_PacketAdaptationField_RandomAccessIndicator set_PacketAdaptationField_SpliceCountdown set_PacketAdaptationField_StuffingLength set_PacketAdaptationField_TransportPrivateData set_PacketAdaptationField_TransportPrivateDataLength
+  PacketAdaptationField_AdaptationExtensionField PacketAdaptationField_OPCR PacketAdaptationField_PCR PacketAdaptationField_TransportPrivateData PacketAdaptationField_TransportPrivateDataLength PacketAdaptationField_Length PacketAdaptationField_StuffingLength PacketAdaptationField_SpliceCountdown PacketAdaptationField_IsOneByteStuffing PacketAdaptationField_RandomAccessIndicator PacketAdaptationField_DiscontinuityIndicator PacketAdaptationField_ElementaryStreamPriorityIndicator PacketAdaptationField_HasAdaptationExtensionField PacketAdaptationField_HasOPCR PacketAdaptationField_HasPCR PacketAdaptationField_HasTransportPrivateData PacketAdaptationField_HasSplicingCountdown
+  PacketAdaptationExtensionField_DTSNextAccessUnit PacketAdaptationExtensionField_HasLegalTimeWindow PacketAdaptationExtensionField_HasPiecewiseRate PacketAdaptationExtensionField_HasSeamlessSplice PacketAdaptationExtensionField_LegalTimeWindowIsValid PacketAdaptationExtensionField_LegalTimeWindowOffset PacketAdaptationExtensionField_Length PacketAdaptationExtensionField_PiecewiseRate PacketAdaptationExtensionField_SpliceType
+  odflt zero_PacketAdaptationField zero_PacketAdaptationExtensionField].
+Ltac paf_cbv := cbv beta iota zeta delta [upd_aef fst snd
+  set_PacketAdaptationExtensionField_DTSNextAccessUnit set_PacketAdaptationExtensionField_HasLegalTimeWindow set_PacketAdaptationExtensionField_HasPiecewiseRate set_PacketAdaptationExtensionField_HasSeamlessSplice set_PacketAdaptationExtensionField_LegalTimeWindowIsValid set_PacketAdaptationExtensionField_LegalTimeWindowOffset set_PacketAdaptationExtensionField_Length set_PacketAdaptationExtensionField_PiecewiseRate set_PacketAdaptationExtensionField_SpliceType set_PacketAdaptationField_AdaptationExtensionField set_PacketAdaptationField_DiscontinuityIndicator set_PacketAdaptationField_ElementaryStreamPriorityIndicator set_PacketAdaptationField_HasAdaptationExtensionField set_PacketAdaptationField_HasOPCR set_PacketAdaptationField_HasPCR set_PacketAdaptationField_HasSplicingCountdown set_PacketAdaptationField_HasTransportPrivateData set_PacketAdaptationField_IsOneByteStuffing set_PacketAdaptationField_Length set_PacketAdaptationField_OPCR set_PacketAdaptationField_PCR set_PacketAdaptationField_RandomAccessIndicator set_PacketAdaptationField_SpliceCountdown set_PacketAdaptationField_StuffingLength set_PacketAdaptationField_TransportPrivateData set_PacketAdaptationField_TransportPrivateDataLength
+  PacketAdaptationField_AdaptationExtensionField PacketAdaptationField_OPCR PacketAdaptationField_PCR PacketAdaptationField_TransportPrivateData PacketAdaptationField_TransportPrivateDataLength PacketAdaptationField_Length PacketAdaptationField_StuffingLength PacketAdaptationField_SpliceCountdown PacketAdaptationField_IsOneByteStuffing PacketAdaptationField_RandomAccessIndicator PacketAdaptationField_DiscontinuityIndicator PacketAdaptationField_ElementaryStreamPriorityIndicator PacketAdaptationField_HasAdaptationExtensionField PacketAdaptationField_HasOPCR PacketAdaptationField_HasPCR PacketAdaptationField_HasTransportPrivateData PacketAdaptationField_HasSplicingCountdown
+  PacketAdaptationExtensionField_DTSNextAccessUnit PacketAdaptationExtensionField_HasLegalTimeWindow PacketAdaptationExtensionField_HasPiecewiseRate PacketAdaptationExtensionField_HasSeamlessSplice PacketAdaptationExtensionField_LegalTimeWindowIsValid PacketAdaptationExtensionField_LegalTimeWindowOffset PacketAdaptationExtensionField_Length PacketAdaptationExtensionField_PiecewiseRate PacketAdaptationExtensionField_SpliceType
+  odflt zero_PacketAdaptationField zero_PacketAdaptationExtensionField].
+
+
+
+Lemma parse_packet_adaptation_field_gen : forall i, okI i -> parse_packet_adaptation_field i = parsePacketAdaptationField i.
+Proof.
+  intros i Hi. unfold parse_packet_adaptation_field, parsePacketAdaptationField.
+  paf_norm.
+  apply bind_step. intros len i1 E1.
+  apply next_byte_ok in E1. destruct E1 as (Hoff & Hbs1 & Hoff1 & Hlen).
+  assert (Hi1 : okI i1) by (unfold okI; rewrite Hbs1; exact Hi).
+  assert (Hl : byte_ok len) by (subst len; apply nth_byte_ok, Hi).
+  clear Hlen Hoff Hoff1 Hbs1.
+  apply bind_step. intros s i2 E2.
+  assert (Hs : s = ioff i1 /\ i2 = i1) by (unfold ioffset in E2; inversion E2; auto). clear E2. destruct Hs as [Hs ->].
+  destruct (len >? 0) eqn:El.
+  2:{ unfold ibind, iret, ioffset. f_equal. f_equal. paf_norm.
+      assert (len = 0) by (unfold byte_ok in Hl; lia). subst len s. rewrite Z.sub_diag. reflexivity. }
+  clear Hs. apply sim_point; [|exact Hi1]. clear i Hi i1 Hi1.
+  apply sim_assoc_r.
+  eapply sim_bind; [apply sim_next_byte|]. intros fl ? (<- & Hfl). cbv beta.
+  flags fl Hfl.
+  (* PCR *)
+  apply sim_assoc_r. eapply sim_bind.
+  { apply sim_if; [eapply sim_bind; [apply parse_pcr_sim|]; intros c ? <-; apply sim_ret; inst_R | apply sim_ret; reflexivity]. }
+  cbv beta. intros pcr a ->. paf_norm.
+  (* OPCR *)
+  apply sim_assoc_r. eapply sim_bind.
+  { apply sim_if; [eapply sim_bind; [apply parse_pcr_sim|]; intros c ? <-; apply sim_ret; inst_R | apply sim_ret; reflexivity]. }
+  cbv beta. intros opcr a ->. paf_norm.
+  (* splice countdown *)
+  apply sim_assoc_r. eapply sim_bind.
+  { unfold when. apply sim_if; [eapply sim_map_r; [apply sim_next_byte|]; intros x ? (<- & Hx); inst_R | apply sim_ret; reflexivity]. }
+  cbv beta. intros sc a ->. paf_norm.
+  (* transport private data *)
+  apply sim_assoc_r.
+  lazymatch goal with |- sim _ _ (ibind (if _ then _ else iret ?A) _) =>
+    eapply (sim_bind (fun (p : Z * list Z) a' =>
+      a' = set_PacketAdaptationField_TransportPrivateData (snd p) (set_PacketAdaptationField_TransportPrivateDataLength (fst p) A))) end.
+  { apply sim_if; [|apply sim_ret; reflexivity].
+    eapply sim_bind; [apply sim_next_byte|]. intros l ? (<- & Hlb). cbv beta.
+    eapply sim_bind.
+    { unfold when. apply sim_if; [eapply sim_map_r; [apply sim_next_bytes|]; intros x ? (<- & _ & _); inst_R | apply sim_ret; reflexivity]. }
+    cbv beta. intros d a ->. apply sim_ret. reflexivity. }
+  cbv beta. intros [tpdl tpd] a ->. cbn [fst snd]. paf_norm.
+  (* extension *)
+  apply sim_assoc_r.
+  lazymatch goal with |- sim _ _ (ibind (if _ then _ else iret ?A) _) =>
+    set (A0 := A);
+    eapply (sim_bind (fun o a' => a' = set_PacketAdaptationField_AdaptationExtensionField o A0)) end.
+  { apply sim_if; [|apply sim_ret; subst A0; paf_cbv; reflexivity]. clearbody A0.
+    unfold parse_af_extension. apply sim_assoc_l.
+    eapply sim_bind; [apply sim_next_byte|]. intros elen ? (<- & Helen). cbv beta zeta.
+    eapply (sim_bind (fun e a' => a' = set_PacketAdaptationField_AdaptationExtensionField (Some e) A0)).
+    2:{ intros e a' ->. apply sim_ret. reflexivity. }
+    apply sim_if; [|apply sim_ret; paf_cbv; reflexivity].
+    eapply sim_bind; [apply sim_next_byte|]. intros efl ? (<- & Hefl). cbv beta zeta. flags efl Hefl.
+    (* legal time window *)
+    lazymatch goal with |- sim _ _ (ibind (if ?c then _ else iret ?A) _) =>
+      eapply (sim_bind (fun ltw a' => a' = upd_aef (fun e =>
+         set_PacketAdaptationExtensionField_LegalTimeWindowOffset (if c then bitsf ltw 1 15 else 0)
+           (set_PacketAdaptationExtensionField_LegalTimeWindowIsValid (if c then bitb ltw 0 else false) e)) A)) end.
+    { unfold when. apply sim_if_eqn; intros Hc.
+      - eapply sim_map_r; [apply sim_next_bytes_nocopy|]. intros x ? (<- & Hok & Hlen). rewrite Hc.
+        explode_bytes x Hlen Hok. nth_lit. pose proof Hok as Hok'. bytes_inv Hok'.
+        paf_cbv. repeat f_equal; bridge.
+      - apply sim_ret. rewrite Hc. paf_cbv. reflexivity. }
+    cbv beta. intros ltw a ->. paf_norm.
+    (* piecewise rate *)
+    lazymatch goal with |- sim _ _ (ibind (if ?c then _ else iret ?A) _) =>
+      eapply (sim_bind (fun pr a' => a' = upd_aef (fun e =>
+         set_PacketAdaptationExtensionField_PiecewiseRate (if c then bitsf pr 2 22 else 0) e) A)) end.
+    { unfold when. apply sim_if_eqn; intros Hc.
+      - eapply sim_map_r; [apply sim_next_bytes_nocopy|]. intros x ? (<- & Hok & Hlen). rewrite Hc.
+        explode_bytes x Hlen Hok. nth_lit. pose proof Hok as Hok'. bytes_inv Hok'.
+        paf_cbv. repeat f_equal; bridge.
+      - apply sim_ret. rewrite Hc. paf_cbv. reflexivity. }
+    cbv beta. intros pr a ->. paf_norm.
+    (* seamless splice *)
+    lazymatch goal with |- sim _ _ (ibind (if ?c then _ else iret ?A) _) =>
+      eapply (sim_bind (fun (p : Z * option ClockReference) a' => a' = upd_aef (fun e =>
+         set_PacketAdaptationExtensionField_DTSNextAccessUnit (snd p)
+           (set_PacketAdaptationExtensionField_SpliceType (fst p) e)) A)) end.
+    { apply sim_if.
+      - eapply sim_bind; [apply sim_next_byte|]. intros b2 ? (<- & Hb2). cbv beta.
+        eapply sim_bind; [apply sim_iskip|]. intros _ _ _.
+        eapply sim_bind; [apply parse_pts_or_dts_sim|]. intros d ? <-.
+        apply sim_ret. paf_cbv. repeat f_equal; bridge.
+      - apply sim_ret. paf_cbv. reflexivity. }
+    cbv beta. intros [st dts] a ->. paf_norm.
+    apply sim_ret. paf_cbv. reflexivity. }
+  cbv beta. intros ext a ->. subst A0. paf_norm.
+  (* stuffing length *)
+  apply sim_ret_bind_r.
+  eapply sim_bind; [apply sim_ioffset|]. intros off ? <-.
+  apply sim_ret. paf_cbv. replace (len =? 0) with false by lia. reflexivity.
+Qed.
